@@ -99,6 +99,7 @@ pub fn g_call(g: &mut GraphicsContext, c: &Value) -> Result<(), String> {
             "set_character_spacing" => { g.set_character_spacing(n[0]); }
             "paint_shading" => { g.paint_shading(name(c)); }
             "draw_image" => { g.draw_image(name(c), n[0], n[1], n[2], n[3]); }
+            "draw_text" => { g.draw_text(&text(c), n[0], n[1]).map_err(|e| e.to_string())?; }
             other => tool_error(&format!("g call {other}")),
         }
     }
@@ -322,7 +323,7 @@ fn fuzz(a: &Args) {
     let mut out = Out::file(a.req("out"));
     let mut rng = Rng::new(a.num("seed", 1));
     let n = a.num("cases", 2000);
-    let frags: [&[u8]; 24] = [b"BT ", b"ET ", b"(abc) Tj ", b"[(a) -120 (b)] TJ ", b"/F1 12 Tf ", b"1 0 0 1 10 20 cm ", b"q ", b"Q ", b"BI /W 2 /H 2 /BPC 8 /CS /G ID ",
+    let frags: [&[u8]; 30] = [b"/F#41 1 Tf ", b"/Im#2", b"/A#", b"#", b"/N#4", b"/#zz ", b"BT ", b"ET ", b"(abc) Tj ", b"[(a) -120 (b)] TJ ", b"/F1 12 Tf ", b"1 0 0 1 10 20 cm ", b"q ", b"Q ", b"BI /W 2 /H 2 /BPC 8 /CS /G ID ",
                               b"\x00\x01\x02\x03 EI ", b"<48656C6C6F> Tj ", b"/P <</MCID 0>> BDC ", b"EMC ", b"0.5 g ", b"10 20 m ", b"(", b")", b"<<", b">>", b"[", b"]", b"\\", b"%c\n", b"1e9999 "];
     let (tx, rx) = std::sync::mpsc::channel::<(u64, Vec<u8>)>();
     let (dtx, drx) = std::sync::mpsc::channel::<(u64, String)>();
